@@ -478,7 +478,7 @@ let mut r9_out: Vec<BoxedFactory> = Vec::new(); let mut r9_n: usize = 0; while r
         // the workers' replies have been waited for if and only if the stop is graceful   [C06]
         assert(graceful ==> r21_trace.contains(AwaitTag::WorkerAcks)) by { if graceful { assert(r21_trace[0] == AwaitTag::WorkerAcks); } }   // [C06]
         assert(!graceful ==> !r21_trace.contains(AwaitTag::WorkerAcks));   // [C06]
-//@insert before="if let Some(tx) = completion"
+//@insert before="if let Some(tx) = completion" alt_before="match completion"
         // ORDER: completion is signalled only after (graceful) every worker has replied / (forced) without having
         // waited for anything, and after the accept thread has exited: nothing is dispatched after completion   [C06]
         assert(graceful ==> r21_trace.contains(AwaitTag::WorkerAcks)) by { if graceful { assert(r21_trace[0] == AwaitTag::WorkerAcks); } }   // [C06]
